@@ -194,7 +194,7 @@ Section RWProofs.
     - apply dtype_eqb_eq in E. subst. now rewrite map_c_cast_same.
     - destruct be; simpl.
       + now rewrite Htb.
-      + now rewrite hconv_map.
+      + rewrite Hs. now rewrite hconv_map.
   Qed.
 
   Lemma verify_write_ok : forall s_dim rmin rmax n,
@@ -297,7 +297,7 @@ Section RWProofs.
     - apply dtype_eqb_eq in E. rewrite <- E, map_c_cast_same. now rewrite splice_all.
     - destruct be; simpl.
       + now rewrite Htb.
-      + rewrite hconv_map by assumption. rewrite splice_all; [reflexivity|]. now rewrite map_length.
+      + rewrite Hs. rewrite hconv_map by assumption. rewrite splice_all; [reflexivity|]. now rewrite map_length.
   Qed.
 
   (* --- full and partial transfers agree *)
@@ -431,17 +431,41 @@ Section Exported.
 End Exported.
 
 (* ------------------------------------------------------------------ round trips *)
-Ltac Zify.zify_post_hook ::= Z.div_mod_to_equations.
+Lemma cast_I4_I8 : forall u, c_cast I4 I8 u = wrapu 64 (sgn 32 u).
+Proof. reflexivity. Qed.
+Lemma cast_I8_I4 : forall u, c_cast I8 I4 u = wrapu 32 (sgn 64 u).
+Proof. reflexivity. Qed.
+
+Lemma sgn_range : forall b u, 1 <= b -> 0 <= u < 2 ^ b -> - 2 ^ (b - 1) <= sgn b u < 2 ^ (b - 1).
+Proof.
+  intros b u Hb Hu. unfold sgn.
+  assert (E : 2 ^ b = 2 * 2 ^ (b - 1)) by (rewrite <- Z.pow_succ_r by lia; f_equal; lia).
+  destruct (Z.ltb_spec u (2 ^ (b - 1))); lia.
+Qed.
+Lemma wrapu_sgn : forall b u, 1 <= b -> 0 <= u < 2 ^ b -> wrapu b (sgn b u) = u.
+Proof.
+  intros b u Hb Hu. unfold wrapu, sgn.
+  destruct (Z.ltb_spec u (2 ^ (b - 1))).
+  - apply Z.mod_small; lia.
+  - rewrite <- (Z.mod_small u (2 ^ b)) at 2 by lia.
+    replace (u - 2 ^ b) with (u + (-1) * 2 ^ b) by ring. apply Z.mod_add. lia.
+Qed.
+Lemma sgn_wrapu : forall b v, 1 <= b -> - 2 ^ (b - 1) <= v < 2 ^ (b - 1) -> sgn b (wrapu b v) = v.
+Proof.
+  intros b v Hb Hv. unfold wrapu, sgn.
+  assert (E : 2 ^ b = 2 * 2 ^ (b - 1)) by (rewrite <- Z.pow_succ_r by lia; f_equal; lia).
+  destruct (Z_lt_le_dec v 0).
+  - replace (v mod 2 ^ b) with (v + 2 ^ b).
+    2:{ rewrite <- (Z.mod_small (v + 2 ^ b) (2 ^ b)) at 1 by lia.
+        replace (v + 2 ^ b) with (v + 1 * 2 ^ b) by ring. apply Z.mod_add. lia. }
+    destruct (Z.ltb_spec (v + 2 ^ b) (2 ^ (b - 1))); lia.
+  - rewrite Z.mod_small by lia. destruct (Z.ltb_spec v (2 ^ (b - 1))); lia.
+Qed.
 
 Lemma roundtrip_I4_I8 : forall u, 0 <= u < 2 ^ 32 -> c_cast I8 I4 (c_cast I4 I8 u) = u.
 Proof.
-  intros u Hu. unfold c_cast, conv, conv_scalar, wrapu, sgn. simpl ctype_of. simpl ctype_eqb. simpl cbits.
-  change (2 ^ 32) with 4294967296 in *. change (2 ^ (32 - 1)) with 2147483648.
-  change (2 ^ 64) with 18446744073709551616. change (2 ^ (64 - 1)) with 9223372036854775808.
-  destruct (Z.ltb_spec u 2147483648).
-  - rewrite (Z.mod_small u) by lia. destruct (Z.ltb_spec u 9223372036854775808); [|lia]. apply Z.mod_small; lia.
-  - replace ((u - 4294967296) mod 18446744073709551616) with (u - 4294967296 + 18446744073709551616).
-    2:{ symmetry. apply Z.mod_unique with (-1); lia. }
-    destruct (Z.ltb_spec (u - 4294967296 + 18446744073709551616) 9223372036854775808); [lia|].
-    apply Z.mod_unique with (-1); lia.
+  intros u Hu. rewrite cast_I4_I8, cast_I8_I4.
+  pose proof (sgn_range 32 u ltac:(lia) Hu) as Hr.
+  rewrite sgn_wrapu; [apply wrapu_sgn; lia | lia |].
+  assert (2 ^ (32 - 1) <= 2 ^ (64 - 1)) by (apply Z.pow_le_mono_r; lia). lia.
 Qed.
